@@ -77,6 +77,27 @@ Proof.
 Qed.
 Print Assumptions C13_session_classes_flat.
 
+(* ---- a grant together with the tokens it issued (Grant.special_load_dump: issued_token, token_map) ----
+   for every grant whose own attributes and whose tokens' attributes are well-shaped: dump, load into a
+   freshly constructed grant (`fresh c` = what the constructor of class c yields), and the grant's
+   exported attributes, every issued token's exported attributes (used, revoked, expires_at, usage_rules,
+   value, based_on, ... in issuing order) and the token map are back. *)
+Theorem C13_grant_roundtrip : forall tabs fresh g c,
+  obj_class g = Some c -> grant_ok tabs fresh g = true ->
+  str_in s_issued_token (specials_of tabs c) = true -> str_in s_token_map (specials_of tabs c) = true ->
+  exists D g', grant_dump tabs g = Ok D /\ grant_load tabs fresh c D = Ok g' /\
+    agree_on (class_table tabs c) (specials_of tabs c) g g' /\
+    (forall x l, getattr s_issued_token g = Some (VList (x :: l)) ->
+       exists l', assoc s_issued_token g' = Some (VList l') /\ Forall2 (tok_agree tabs) (x :: l) l') /\
+    (forall x d, getattr s_token_map g = Some (VDict (x :: d)) -> assoc s_token_map g' = Some (VDict (x :: d))).
+Proof. exact grant_roundtrip. Qed.
+Print Assumptions C13_grant_roundtrip.
+(* its side conditions hold of the regenerated Grant / ExchangeGrant tables *)
+Example C13_grant_specials_regenerated :
+  forallb (fun c => str_in s_issued_token (specials_of impexp_tables c) && str_in s_token_map (specials_of impexp_tables c))
+          [c_Grant; c_ExchangeGrant] = true.
+Proof. vm_compute. reflexivity. Qed.
+
 (* ---- every state field the logic reads is exported and imported by its class ----
    over the tables regenerated from /repo/src on this run: deleting e.g. "used" from Item.parameter,
    "jti_db" from EndpointContext.parameter or the issued_token load function breaks this proof. *)
